@@ -75,7 +75,7 @@ def lane_binary(lane):
 
 
 def build(lanes):
-    targets = [lane_binary(l) for l in lanes]
+    targets = [lane_binary(l) for l in lanes] + [os.path.join(BUILD, "locale", "xx_XX", "LC_NUMERIC")]  # + the test locale (C20)
     cmd = ["make", "-C", os.path.join(VERIF, "sim"), "-j%d" % NCPU, "REPO=" + REPO, "B=" + BUILD] + targets
     t0 = time.time()
     r = subprocess.run(cmd, stdout=subprocess.PIPE, stderr=subprocess.STDOUT, text=True)
